@@ -31,7 +31,7 @@ JOpsOK(a) ==
     /\ a[i].k \in {"C","D","U"} /\ a[i].u = "t1" /\ JMapOK(a[i].om)
     /\ a[i].k = "U" => (a[i].p \in AllKeys /\ a[i].v \in ValsN /\ a[i].o \in ValsN /\ a[i].t = "now")
 JOps(a) == [i \in DOMAIN a |-> [k |-> a[i].k, p |-> a[i].p, v |-> a[i].v, o |-> a[i].o,
-                                om |-> JMap(a[i].om)]]
+                                om |-> IF a[i].om = <<>> THEN EmptyMap ELSE JMap(a[i].om)]]
 JEntries(a) == [i \in DOMAIN a |-> <<a[i][1], a[i][2]>>]
 
 StoredIs(s) == JMapOK(E.m) /\ E.ex = B(s.ex) /\ E.ws = B(s.ws) /\ JMap(E.m) = s.m
@@ -126,8 +126,15 @@ Accepted ==
   IF d - 1 = Len(Rec) THEN TRUE
   ELSE Print(<<"TRACE-REJECTED-AT", d, ToJson(Rec[d])>>, FALSE)
 
-(* the invariants of TaskModel evaluated along the trace *)
-TraceInv == TypeOK /\ TaskRules /\ ModelRules
+(* the invariants of TaskModel evaluated along the trace.  TaskRules reads   *)
+(* only ob, ops, prev, last and st, which change at Load / Mut steps (and    *)
+(* at Commit / Reset / Install, after which no object is held);  ModelRules  *)
+(* reads only st, which changes at Install / Commit / Reset: evaluating each *)
+(* where its variables changed covers every state of the trace.            *)
+After(S) == l > 1 /\ Rec[l - 1].a \in S
+TraceInv ==
+  /\ After({"Load", "Mut"}) => (TypeOK /\ TaskRules)
+  /\ After({"Install", "Commit", "Reset"}) => (TypeOK /\ TaskRules /\ ModelRules)
 
 -----------------------------------------------------------------------------
 (* diagnostic configuration (run on one rejected behaviour): the reader     *)
